@@ -7,7 +7,7 @@
              mailbox was written by mailbox.mbox with n messages, this one at position pos;
              nres = number of results the mailbox produced
      "Raised" the extractor raised (exc = class name): never accepted
-   and, for fixtures that have no abstract message (the two .msg files; hdr.m is then a dummy):
+   (hdr.kind = "msg") and, for fixtures that have no abstract message (hdr.kind = "fixture", hdr.m a dummy):
      "Fixture" p = field-presence flags
    TLC decides with Mail!Accept (= Expected(m) modulo the DON'T-CAREs of Mail.tla).          *)
 EXTENDS Mail, Json, IOUtils, TLCExt
@@ -37,5 +37,5 @@ TraceAccept ==
     /\ (l = Len(Traces[tid].ev) + 1) => PrintT(<<"ACCEPT", tid>>)
     /\ (IOEnv.MBV_PROGRESS = "1") => PrintT(<<"AT", tid, l>>)
     \* diagnostics for replay files: what the specification expects for this message
-    /\ (IOEnv.MBV_EXPECT = "1" /\ l = 1 /\ M # "fixture") => PrintT(<<"EXPECTED", tid, Expected(M)>>)
+    /\ (IOEnv.MBV_EXPECT = "1" /\ l = 1 /\ Traces[tid].hdr.kind = "msg") => PrintT(<<"EXPECTED", tid, Expected(M)>>)
 =============================================================================
